@@ -25,11 +25,11 @@ import (
 )
 
 type fixtureChain struct {
-	name    string
-	net     *networks.Network
-	blocks  int
+	name   string
+	net    *networks.Network
+	blocks int
 	// which tamper classes this format commits (prefix match on the class name)
-	commits []string
+	commits          []string
 	txHashesVerified bool
 }
 
